@@ -25,13 +25,13 @@ example :
 example :
     let evs := [Ev.addLocal "a" false 0, .addLocal "b" false 0, .enterLit, .addLocal "c" false 0, .addLocal "d" false 0,
                 .addLocal "e" false 0, .enterLit, .addLocal "i" false 0, .freeAll, .leaveLit 1, .freeAll, .cleanup]
-    let p := runLI (Loc.init 25, Ids.init) evs
+    let p := runLI (Loc.init 25, Ids.init (fun _ => false)) evs
     p.1.bad = false ∧ p.2.bad = false ∧ p.2.live = [] ∧ p.2.refs "a" = 0 ∧ p.2.refs "c" = 0 := by decide
 
 example :
     let evs := [Ev.addLocal "a" false 0, .addLocal "b" false 0, .enterLit, .addLocal "c" false 0, .addLocal "d" false 0,
                 .addLocal "e" false 0, .enterLit, .addLocal "i" false 0, .freeAll, .leaveLit 1]
-    let p := runLI (Loc.init 25, Ids.init) evs
+    let p := runLI (Loc.init 25, Ids.init (fun _ => false)) evs
     p.1.lOff = 0 ∧ p.1.cur = 2 ∧ p.2.live = ["b", "a"] ∧ p.2.lnum "a" = 0 ∧ p.2.lnum "b" = 1 ∧ p.2.lnum "c" = -1 := by decide
 
 end NV.C02
